@@ -252,7 +252,10 @@ def standin(tier, seed):
                b"--" + BOUND + b"\r\n continuation\r\n\r\nv\r\n--" + BOUND + b"--", b"--" + BOUND + b"\r\nContent-Disposition: form-data; name*=utf-8''%ff%fe\r\n\r\nv\r\n--" + BOUND + b"--",
                b"--" + BOUND + b"\r\nContent-Disposition: form-data; name*=nosuchcharset''x\r\n\r\nv\r\n--" + BOUND + b"--",
                b"--" + BOUND + b"\r\nContent-Disposition: form-data; name*0*=utf-8''a; name*2=b\r\n\r\nv\r\n--" + BOUND + b"--",
-               b"--" + BOUND + b"\r\nContent-Disposition: form-data; name*" + b"9" * 5000 + b"=x\r\n\r\nv\r\n--" + BOUND + b"--"]
+               b"--" + BOUND + b"\r\nContent-Disposition: form-data; name*" + b"9" * 5000 + b"=x\r\n\r\nv\r\n--" + BOUND + b"--",
+               # F-57: a numbered and an unnumbered RFC 2231 section of one parameter (email.utils cannot sort them)
+               b"--" + BOUND + b"\r\nContent-Disposition: form-data; name*=\"na\"; name*1=\"me*\"\r\n\r\nv\r\n--" + BOUND + b"--",
+               b"--" + BOUND + b"\r\nContent-Disposition: form-data; name=\"n\"; filename*0=a; filename*=b\r\n\r\nv\r\n--" + BOUND + b"--"]
     cases = [("multipart/form-data; boundary=" + BOUND.decode(), g) for g in garbage]
     for ctype, body in pool:
         for _ in range(12 if tier == "quick" else 40):
